@@ -166,7 +166,7 @@ class Flow:
                 return e[2][p["i"]]
             # payload of an enum variant built right here: `(Some(x) as Some).0` is x
             if e[0] == "downcast" and e[1][0] == "agg" and e[1][1][0] == "adt" and e[1][1][2] == e[2] and p["i"] < len(e[1][2]) \
-                    and e[1][1][1].startswith(("core::option::Option", "core::result::Result")):
+                    and e[1][1][1].startswith(("core::option::Option", "core::result::Result", "core::ops::control_flow::ControlFlow")):
                 return e[1][2][p["i"]]
             return ("field", e, p["n"], p["i"], p.get("bt"))
         if k == "index":
@@ -246,11 +246,23 @@ class Flow:
                 desc = ("closure", rv["def"], rv.get("ty"))
             else:
                 desc = (ak,)
-            elems = []
+            alts = []
             for o in rv["ops"]:
                 a = self.operand(o, at, depth, seen)
-                elems.append(a[0] if a else ("unknown", "op"))
-            return [("agg", desc, tuple(elems))]
+                alts.append(a[:4] if a else [("unknown", "op")])
+            # one aggregate per combination of operand alternatives (bounded): `Some(x)` with x defined on two paths is two values
+            combos = [()]
+            for a in alts:
+                nxt = []
+                for c in combos:
+                    for x in a:
+                        nxt.append(c + (x,))
+                        if len(nxt) >= 8:
+                            break
+                    if len(nxt) >= 8:
+                        break
+                combos = nxt
+            return [("agg", desc, c) for c in combos]
         if k == "repeat":
             a = self.operand(rv["o"], at, depth, seen)
             return [("repeat", a[0] if a else ("unknown", "op"), rv["n"])]
@@ -359,6 +371,21 @@ def fold(e, width=64):
         a = fold(e[2])
         return None if a is None else (~a)
     return None
+
+
+def infeasible(e):
+    """does the expression project a variant out of a value that is statically a *different* variant (`(None as Some).0`)? Such
+    alternatives come from joins the CFG cannot tell apart; they denote no run-time value."""
+    def bad(x):
+        if x[0] != "downcast":
+            return False
+        b = deep_strip(x[1])
+        if b[0] == "agg" and b[1][0] == "adt" and b[1][2] is not None:
+            return b[1][2] != x[2]
+        if b[0] == "const" and b[4] is not None:
+            return b[4] != x[2]
+        return False
+    return mentions(e, bad)
 
 
 def mentions(e, pred):
